@@ -270,6 +270,9 @@ type vlkWorld struct {
 	rel    map[string]*vlkReload
 	cur    string // content installed, as last seen under the write lock by the driver
 	bound  time.Duration
+
+	needRewrap         bool
+	reloadUnderReaders int // a ReloadSubnets call returned while read locks were held (must never happen)
 }
 
 type vlkSel struct {
@@ -377,15 +380,22 @@ func (w *vlkWorld) startReload(m *vlkReload) {
 	}()
 }
 
-// rewrap puts the gating selector back around whatever ReloadSubnets installed and notes its content.
-// Only called when no request is inside a selection (a reload has just completed).
-func (w *vlkWorld) rewrap() {
-	w.p.selectorMutex.Lock()
+// rewrap puts the gating selector back around whatever ReloadSubnets installed and notes its content.  A reload can
+// only have returned when no request was inside a selection (it needs the write lock), so the lock is free or about to
+// be; TryLock keeps the driver itself from blocking if the code under test breaks that rule - which is recorded.
+func (w *vlkWorld) rewrap() bool {
+	if !w.p.selectorMutex.TryLock() {
+		if vlkMutexState(&w.p.selectorMutex).Readers > 0 {
+			w.reloadUnderReaders++
+		}
+		return false
+	}
 	if _, ok := w.p.ipSelector.(*vlkSel); !ok {
 		w.p.ipSelector = &vlkSel{inner: w.p.ipSelector, w: w}
 	}
 	w.cur = vlkSelectorContent(w.p.ipSelector)
 	w.p.selectorMutex.Unlock()
+	return true
 }
 
 // poll drains whatever the goroutines have signalled so far (non-blocking) and updates the driver's view
@@ -412,10 +422,13 @@ func (w *vlkWorld) poll() {
 			select {
 			case <-m.done:
 				m.isDone = true
-				w.rewrap()
+				w.needRewrap = true
 			default:
 			}
 		}
+	}
+	if w.needRewrap && w.rewrap() {
+		w.needRewrap = false
 	}
 }
 
@@ -538,17 +551,18 @@ func vlkMatch(pr vlkProj, st vlkSt) []string {
 }
 
 type vlkOutcome struct {
-	Kind     string            `json:"kind"` // ok | stall | deadlock | diverge
-	Step     int               `json:"step"`
-	Diff     []string          `json:"diff,omitempty"`
-	Want     any               `json:"want,omitempty"`
-	Got      any               `json:"got,omitempty"`
-	Resp     map[string]string `json:"resp,omitempty"` // request -> "v4/v6" class
-	Errs     map[string]string `json:"errs,omitempty"`
-	Stacks   string            `json:"stacks,omitempty"`
-	Ungated  int               `json:"ungated,omitempty"`
-	Sched    []string          `json:"sched,omitempty"`
-	Released int               `json:"-"`
+	Kind               string            `json:"kind"` // ok | stall | deadlock | diverge
+	Step               int               `json:"step"`
+	Diff               []string          `json:"diff,omitempty"`
+	Want               any               `json:"want,omitempty"`
+	Got                any               `json:"got,omitempty"`
+	Resp               map[string]string `json:"resp,omitempty"` // request -> "v4/v6" class
+	Errs               map[string]string `json:"errs,omitempty"`
+	Stacks             string            `json:"stacks,omitempty"`
+	Ungated            int               `json:"ungated,omitempty"`
+	ReloadUnderReaders int               `json:"reload_under_readers,omitempty"`
+	Sched              []string          `json:"sched,omitempty"`
+	Released           int               `json:"-"`
 }
 
 func vlkSched(b *vlkBeh, upto int) []string {
@@ -592,6 +606,7 @@ func vlkRunBehaviour(t testing.TB, files *vlkFiles, b *vlkBeh, salt int, boundMu
 	out := vlkOutcome{Kind: "ok", Step: -1}
 	fail := func(kind string, i int, want any, got vlkProj, diff []string) vlkOutcome {
 		out.Kind, out.Step, out.Want, out.Got, out.Diff = kind, i, want, got, diff
+		out.ReloadUnderReaders = w.reloadUnderReaders
 		out.Stacks = vlkStacks()
 		out.Sched = vlkSched(b, i)
 		return out
@@ -827,7 +842,7 @@ func TestVerifLocksReplay(t *testing.T) {
 			}
 		default:
 			out.Emit(map[string]any{"kind": o.Kind, "idx": n, "step": o.Step, "diff": o.Diff, "want": o.Want, "got": o.Got,
-				"stacks": o.Stacks, "sched": o.Sched, "spec_term": b.Term})
+				"stacks": o.Stacks, "sched": o.Sched, "spec_term": b.Term, "reload_under_readers": o.ReloadUnderReaders})
 		}
 	})
 	out.Emit(map[string]any{"kind": "summary", "behaviours": n, "steps": steps, "stuck_replayed": nstuck, "skipped": nskipped,
@@ -899,7 +914,8 @@ func TestVerifLocksProbe(t *testing.T) {
 	w.releaseReq(rq)
 	pr, ok := w.await(w.bound, func(pr vlkProj) bool { return pr.At["d1"] != "running" })
 	res := map[string]any{"kind": "probe2", "held_at_post_v4": heldAtPost, "reload_waited_for_reader": reloadBlocked,
-		"reached": pr.At["d1"], "reload_done_when_reached": pr.Mdone["m1"], "readers": pr.Readers, "w": pr.W, "stalled": !ok}
+		"reload_returned_under_readers": w.reloadUnderReaders > 0,
+		"reached":                       pr.At["d1"], "reload_done_when_reached": pr.Mdone["m1"], "readers": pr.Readers, "w": pr.W, "stalled": !ok}
 	out.Emit(res)
 	if ok {
 		// let it finish
